@@ -38,6 +38,7 @@ type ReplayFile struct {
 	Profile   string     `json:"profile"`
 	Seed      uint64     `json:"seed"`
 	Index     uint64     `json:"index"`
+	SweepPos  int        `json:"sweep_pos"`
 	Oracle    string     `json:"oracle"`
 	Key       string     `json:"key"`
 	Msg       string     `json:"msg"`
@@ -150,21 +151,26 @@ func TestWorker(t *testing.T) {
 }
 
 func lookup(t *testing.T, prop, profile string) Scenario {
+	sc, _ := lookup2(t, prop, profile)
+	return sc
+}
+
+func lookup2(t *testing.T, prop, profile string) (Scenario, int) {
 	pd, ok := Properties[prop]
 	if !ok {
 		t.Fatalf("unknown property %s", prop)
 	}
 	for _, p := range pd.Profiles {
 		if p.Name == profile {
-			return p.Sc
+			return p.Sc, p.Sweep
 		}
 	}
 	t.Fatalf("unknown profile %s/%s", prop, profile)
-	return nil
+	return nil, 0
 }
 
 func workerBatch(t *testing.T, job *Job) {
-	sc := lookup(t, job.Property, job.Profile)
+	sc, sweep := lookup2(t, job.Property, job.Profile)
 	out := &Out{
 		Property: job.Property, Profile: job.Profile,
 		Faults: map[string]int{}, FaultsConf: map[string]int{}, Hooks: map[string]int{}, Probes: map[string]int{},
@@ -185,11 +191,16 @@ func workerBatch(t *testing.T, job *Job) {
 			break
 		}
 		seed := Mix(job.Seed, job.Property+"/"+job.Profile, i)
+		sweepPos := 0
+		if sweep > 0 {
+			seed = Mix(job.Seed, job.Property+"/"+job.Profile, i/uint64(sweep))
+			sweepPos = int(i % uint64(sweep))
+		}
 		if job.Journal != "" {
 			os.WriteFile(job.Journal, []byte(fmt.Sprintf("%d %d\n", i, seed)), 0o644)
 		}
 		runInProgress.Store(true)
-		res := Execute(t, job.Property, job.Profile, seed, NewTape(seed), sc)
+		res := ExecuteSweep(t, job.Property, job.Profile, seed, sweepPos, NewTape(seed), sc)
 		runInProgress.Store(false)
 		if res.HarnessEr != "" {
 			out.HarnessErr = fmt.Sprintf("index %d seed %d: %s", i, seed, res.HarnessEr)
@@ -235,7 +246,7 @@ func workerBatch(t *testing.T, job *Job) {
 			vk := res.Viol.Oracle + "|" + res.Viol.Key
 			seenViol[vk]++
 			rf := &ReplayFile{
-				Property: job.Property, Profile: job.Profile, Seed: seed, Index: i,
+				Property: job.Property, Profile: job.Profile, Seed: seed, Index: i, SweepPos: sweepPos,
 				Oracle: res.Viol.Oracle, Key: res.Viol.Key, Msg: res.Viol.Msg,
 				Tape: res.Tape, OrigLen: len(res.Tape), LogHash: res.LogHash, Trace: res.Trace,
 			}
@@ -243,9 +254,9 @@ func workerBatch(t *testing.T, job *Job) {
 			if seenViol[vk] <= 2 { // keep at most two replay files per (oracle,key) per worker
 				writeJSON(path, rf)
 				if !job.NoShrink && seenViol[vk] == 1 {
-					min, n := Shrink(t, job.Property, job.Profile, seed, res.Tape, sc, res.Viol.Oracle,
+					min, n := Shrink(t, job.Property, job.Profile, seed, sweepPos, res.Tape, sc, res.Viol.Oracle,
 						400, time.Duration(job.ShrinkS)*time.Second)
-					r2 := Execute(t, job.Property, job.Profile, seed, ReplayTape(min), sc)
+					r2 := ExecuteSweep(t, job.Property, job.Profile, seed, sweepPos, ReplayTape(min), sc)
 					if r2.Viol != nil && r2.Viol.Oracle == res.Viol.Oracle {
 						rf.Tape, rf.Minimised, rf.ShrinkRun = r2.Tape, true, n
 						rf.Key, rf.Msg, rf.LogHash, rf.Trace = r2.Viol.Key, r2.Viol.Msg, r2.LogHash, r2.Trace
@@ -300,7 +311,7 @@ func workerReplay(t *testing.T, job *Job) {
 	if rf.FromSeed {
 		tape = NewTape(rf.Seed)
 	}
-	res := Execute(t, rf.Property, rf.Profile, rf.Seed, tape, sc)
+	res := ExecuteSweep(t, rf.Property, rf.Profile, rf.Seed, rf.SweepPos, tape, sc)
 	runInProgress.Store(false)
 	out := &Out{Property: rf.Property, Profile: rf.Profile, Runs: 1, HarnessErr: res.HarnessEr}
 	out.LogHash = res.LogHash
@@ -322,8 +333,8 @@ func workerShrink(t *testing.T, job *Job) {
 		job.ShrinkS = 60
 	}
 	runInProgress.Store(true)
-	min, n := Shrink(t, rf.Property, rf.Profile, rf.Seed, rf.Tape, sc, rf.Oracle, 400, time.Duration(job.ShrinkS)*time.Second)
-	r2 := Execute(t, rf.Property, rf.Profile, rf.Seed, ReplayTape(min), sc)
+	min, n := Shrink(t, rf.Property, rf.Profile, rf.Seed, rf.SweepPos, rf.Tape, sc, rf.Oracle, 400, time.Duration(job.ShrinkS)*time.Second)
+	r2 := ExecuteSweep(t, rf.Property, rf.Profile, rf.Seed, rf.SweepPos, ReplayTape(min), sc)
 	runInProgress.Store(false)
 	out := &Out{Property: rf.Property, Profile: rf.Profile, Runs: n}
 	if r2.Viol != nil && r2.Viol.Oracle == rf.Oracle {
